@@ -310,7 +310,7 @@ CLAIMED["C11"] = {
             "The command-line tool: for EVERY command file (LF, CRLF or CR line ends) and every token of the source it hands to the parser, "
             "the context display for the token's line exists and marks the line of the file in which the token starts "
             "(C11_cli_marks_the_token_line, over a model of the tool's line splitting and context arithmetic). "
-            "known-location fault injection (12 fault kinds incl. list arguments opening on a later line and run-time faults in "
+            "known-location fault injection (14 fault kinds incl. list arguments and nested lists opening on a later line, Metadata read through Command.metadata and run-time faults in "
             "commands that other commands were running) and the line the command-line tool marks.",
     "note": PARSER_NOTE + " Bare-CR line ends are outside the token-line theorem's hypothesis (the command-line tool itself reads files in text mode, "
             "which turns them into LF: C11_cli_marks_the_token_line covers CR, CRLF and LF files). The command-line tool's reading of the "
